@@ -256,6 +256,7 @@ class Evaluator(Folder):
                 self._block(st.orelse)
         elif isinstance(st, ast.While):
             n = 0
+            broke_w = False
             while self._truth(st.test):
                 n += 1
                 if n > 10000:
@@ -263,9 +264,12 @@ class Evaluator(Folder):
                 try:
                     self._block(st.body)
                 except _Break:
+                    broke_w = True
                     break
                 except _Continue:
                     continue
+            if not broke_w:
+                self._block(st.orelse)  # `while ... else`: runs when the condition turned false
         elif isinstance(st, ast.Return):
             raise _Return(self.fold(st.value) if st.value is not None else None)
         elif isinstance(st, ast.Raise):
